@@ -311,10 +311,13 @@ func VerifIndexRejectedBatch() {
 	}
 	s, st := verifShard(schema)
 	a := uuid.UUID{1}
-	ids := []uuid.UUID{a, {2}, {3}, {4}}
+	n := vparam("BATCH", 3)
+	ids := []uuid.UUID{a}
+	for i := 0; i < n; i++ {
+		ids = append(ids, uuid.UUID{byte(i + 2)})
+	}
 	vassume(s.InsertPoints([]models.Point{{Id: a, Data: vdoc(vecDoc(0, 1, 1))}}) == nil)
 	before := observe(s, ids)
-	n := vparam("BATCH", 3)
 	bad := nondetIntRange(0, n-1)
 	badField := nondetIntRange(0, 1)
 	batch := make([]models.Point, n)
